@@ -99,13 +99,13 @@ def run(ctx: Ctx) -> None:
     vp = chk.methods.get("visit_PlaceNode")
     if vp is None:
         raise AnalysisError("visit_PlaceNode vanished")
-    raises = {r: ast.unparse(r.exc) if r.exc else "" for r in ast.walk(vp.node) if isinstance(r, ast.Raise)}
+    from .shared import error_builders, raised_diagnostic
+    _errs = {"NotOwnedError", "MoveOutOfSubscriptError", "AlreadyUsedError"}
+    _builders = error_builders(idx, LC, _errs)
     by_err: dict[str, list] = {}
-    for r in raises:
-        # which diagnostic is raised: follow `err = XError(...)` assignments lexically before the raise
-        cands = [(a.lineno, call_name(a.value)) for a in ast.walk(vp.node) if isinstance(a, (ast.Assign, ast.AnnAssign)) and isinstance(a.value, ast.Call)
-                 and call_name(a.value) in ("NotOwnedError", "MoveOutOfSubscriptError", "AlreadyUsedError") and a.lineno < r.lineno]
-        by_err.setdefault(max(cands)[1] if cands else "?", []).append(r)
+    for r in [x for x in ast.walk(vp.node) if isinstance(x, ast.Raise)]:
+        # which diagnostic is raised: constructed in the raise, bound to a variable before it, or built by a helper
+        by_err.setdefault(raised_diagnostic(vp.node, r, _errs, _builders) or "?", []).append(r)
 
     def known_place(x: ast.expr):
         s = ast.unparse(x)
